@@ -131,6 +131,15 @@ class OrderLock(SLock):
         return r
 
 
+def fold_std(c: int) -> str:
+    """python mirror of Operon.Gates.foldStd"""
+    if c == 0xDF:
+        return "ss"
+    if c == 0x3C2:
+        return "\u03c3"
+    return chr(lower_std(c))
+
+
 def lower_std(c: int) -> int:
     """python mirror of Operon.Gates.lowerStd"""
     if 0x41 <= c <= 0x5A:
@@ -282,7 +291,8 @@ RX_INSTANCES = {
     r"проба\d": ["проба1", "ПРОБА2"],
     r"": [""],
 }
-CUSTOM_SUB = ["secret sauce", "BadWord", "Omega Word", "öl", "ЯД", "ab", "a", "", "🙂!", "\x01x", "DROP TABLE"]
+CUSTOM_SUB = ["secret sauce", "BadWord", "Omega Word", "öl", "ЯД", "ab", "a", "", "🙂!", "\x01x", "DROP TABLE",
+              "HACK\u03a3", "stra\u00dfe", "\u03c3\u03bf\u03c6\u03cc\u03c2"]
 CUSTOM_RX = [r"evil\d+", r"x{3}y", r"\bzeta\d\b", r"s[e3]cr[e3]t", r"проба\d", r""]
 BAD_RX = ["(unclosed", "[a-", "*x", "(?P<n>a)(?P<n>b)"]
 
@@ -301,9 +311,10 @@ class C10(Prop):
                     "c:cooling-low", "i:lvl0", "i:lvl1", "i:lvl2", "i:lvl3", "i:lvl4", "v:len-short", "v:len-long",
                     "v:null", "v:ctl", "v:json-size", "v:json-depth", "v:json-dec", "v:json-val", "v:json-rec"]
     _assumptions = [
-        "str.lower acts code point by code point (false only for U+0130 and word-final U+03A3); generated text stays "
-        "inside the set of code points on which Operon.Gates.lowerStd equals str.lower (checked on all 0x110000 code "
-        "points at start-up; the exceptions are never generated)",
+        "str.casefold acts code point by code point (Unicode full case folding; checked on every judged input of a run: "
+        "casefold(s) == ''.join(casefold(ch) for ch in s)); generated text stays inside the set of code points on which "
+        "Operon.Gates.foldStd equals str.casefold (compared on all 0x110000 code points at start-up; the exceptions are "
+        "never generated)",
         "regex signatures: `re` is environment; the theorems about case changes and embedding carry, per regex "
         "signature, the hypothesis that the regex is case-invariant / still matches the embedded text; each is "
         "evaluated with the real `re` on every generated variant (assumption checks counted in the evidence)",
@@ -322,8 +333,9 @@ class C10(Prop):
         if not a:
             return list(self._assumptions)
         return list(self._assumptions) + [
-            f"assumption checks of this run: lowerStd differs from str.lower on {a.get('lower_exceptions')} code points "
-            f"(never generated); {a.get('case_variant_checks')} case-variant and {a.get('embedding_checks')} embedding "
+            f"assumption checks of this run: foldStd differs from str.casefold on {a.get('lower_exceptions')} code points "
+            f"(never generated); casefold was not code-point-wise on {a.get('casefold_not_pointwise', 0)} of "
+            f"{a.get('casefold_checked', 0)} judged inputs; {a.get('case_variant_checks')} case-variant and {a.get('embedding_checks')} embedding "
             f"pairs evaluated against a previously blocked input; regex hypotheses re-evaluated with the real re: "
             f"case-invariance failed on {a.get('regex_case_assumption_failed')} pairs, embedding-monotonicity failed on "
             f"{a.get('regex_embedding_assumption_failed')} separated embeddings (a failure is reported here, it is not "
@@ -361,8 +373,8 @@ class C10(Prop):
         sc = Sched([0] * 4000, [MB.__file__])
         sc.run([lambda: probe.filter(Signal(content="probe"))], join_timeout=5)
         self.par_lines = min(max(len(sc.trace), 8), 120)
-        # lowerStd vs. str.lower on every code point
-        self.lower_exc = {c for c in range(0x110000) if chr(c).lower() != chr(lower_std(c))} | {0x3A3, 0x130}
+        # foldStd vs. str.casefold on every code point
+        self.lower_exc = {c for c in range(0x110000) if chr(c).casefold() != fold_std(c)}
         self.acheck = {"lower_exceptions": len(self.lower_exc), "case_variant_checks": 0, "embedding_checks": 0,
                        "regex_case_assumption_failed": 0, "regex_embedding_assumption_failed": 0}
         keyed = {}
@@ -388,7 +400,7 @@ class C10(Prop):
         for t in BENIGN + HOSTILE + CUSTOM_SUB + [i for v in RX_INSTANCES.values() for i in v]:
             bad = [c for c in t if ord(c) in self.lower_exc]
             if bad:
-                raise AssertionError(f"generator text {t!r} contains a lower()-exceptional code point")
+                raise AssertionError(f"generator text {t!r} contains a code point on which foldStd differs from casefold")
 
     def extract(self, ctx):
         from ..extract import e5_gates
@@ -415,7 +427,7 @@ class C10(Prop):
         for ch in s:
             r = rng.random()
             alt = ch.upper() if r < 0.45 else ch.lower() if r < 0.9 else ch
-            if len(alt) == 1 and alt.lower() == ch.lower() and ord(alt) not in self.lower_exc:
+            if alt.casefold() == ch.casefold() and not any(ord(x) in self.lower_exc for x in alt):
                 out.append(alt)
             else:
                 out.append(ch)
@@ -1314,7 +1326,7 @@ class C10(Prop):
                 return bool(_re.search(pat, content, _re.IGNORECASE))
             except _re.error:
                 return False
-        return pat.lower() in content.lower()
+        return pat.casefold() in content.casefold()      # "matches" for a substring signature: case-insensitive containment
 
     @staticmethod
     def _separated(base, text):
@@ -1335,7 +1347,7 @@ class C10(Prop):
         base, blockers = prev
         if base == content:
             return None
-        casev = len(base) == len(content) and base.lower() == content.lower()
+        casev = base.casefold() == content.casefold()
         emb = (base in content) and base != ""
         if not casev and not emb:
             return None
@@ -1411,6 +1423,10 @@ class C10(Prop):
             rate limit and clock visible at this moment"""
             allowed, level = f[0] == "1", int(f[1])
             matched = [self._parse_sig(x) for x in f[2][3:-1].split(",") if x]
+            if len(content) < 3000:
+                self.acheck["casefold_checked"] = self.acheck.get("casefold_checked", 0) + 1
+                if content.casefold() != "".join(ch.casefold() for ch in content):
+                    self.acheck["casefold_not_pointwise"] = self.acheck.get("casefold_not_pointwise", 0) + 1
             active = S.sigs + list(S.learned.values())
             hits = [s for s in active if self._sig_hits(s, content)]
             blockers = [s for s in hits if s[1] >= S.thr]
